@@ -89,6 +89,7 @@ type ImmutableSpec struct {
 }
 
 type Config struct {
+	MustReach    []MustReachSpec `json:"must_reach"`
 	Immutable    []ImmutableSpec `json:"immutable"`
 	Packages     []string        `json:"packages"`
 	ReaderRoots  []RootSpec      `json:"reader_roots"`
@@ -1363,6 +1364,28 @@ func main() {
 			}
 		}
 	}
+	type mrRow struct {
+		fn, callee int
+		ok         bool
+	}
+	var mustReach []mrRow
+	for _, sp := range cfg.MustReach {
+		ok, why := a.mustReach(sp)
+		row := mrRow{ok: ok}
+		if id, exists := fnID[sp.Func]; exists {
+			row.fn = id
+		}
+		if id, exists := fnID[sp.MustReach]; exists {
+			row.callee = id
+		} else {
+			row.ok = false
+			why = "function " + sp.MustReach + " does not exist"
+		}
+		mustReach = append(mustReach, row)
+		if !row.ok {
+			diags = append(diags, fmt.Sprintf("MustReach: %s: %s (%s)", sp.ID, why, sp.Reason))
+		}
+	}
 	immutable := map[string]bool{}
 	for _, im := range cfg.Immutable {
 		immutable[im.Loc] = true
@@ -1469,7 +1492,11 @@ func main() {
 		imm = append(imm, locID[im.Loc])
 	}
 	sort.Ints(imm)
-	w("]\n  immutable := %s\n  goStmts := %d\n", natList(imm), goStmts)
+	w("]\n  immutable := %s\n  mustReach := [", natList(imm))
+	for i, r := range mustReach {
+		w("(%d,%d,%v)%s", r.fn, r.callee, r.ok, comma(i, len(mustReach)))
+	}
+	w("]\n  goStmts := %d\n", goStmts)
 	w("\nend Goyang.Gen.Access\n")
 	if len(diags) > 0 {
 		w("\n/- DIAGNOSTICS of the translator (for the reader; not part of the proof, the verdict is the kernel's):\n")
@@ -1492,9 +1519,9 @@ func main() {
 	notesPath := strings.TrimSuffix(strings.TrimSuffix(*out, ".new"), ".lean") + ".notes.txt"
 	var nb strings.Builder
 	fmt.Fprintf(&nb, "Notes of harness/cmd/extract-access for %s (informational; the verdict is the kernel's evaluation of\n"+
-		"ReaderDiscipline / GlobalsInitOnly / GuardedLocations / NoGlobalEscapes / ImmutableLocations in Goyang/Props/C19.lean).\n\n", strings.TrimSuffix(*out, ".new"))
+		"ReaderDiscipline / GlobalsInitOnly / GuardedLocations / NoGlobalEscapes / ImmutableLocations / MustReach in Goyang/Props/C19.lean).\n\n", strings.TrimSuffix(*out, ".new"))
 	if len(diags) == 0 {
-		nb.WriteString("No offending site: the translator's own evaluation of the five predicates on this table is true.\n")
+		nb.WriteString("No offending site: the translator's own evaluation of the six predicates on this table is true.\n")
 	} else {
 		fmt.Fprintf(&nb, "%d offending site(s); each makes the named predicate false on this table:\n", len(diags))
 		for _, d := range diags {
